@@ -168,7 +168,7 @@ type TreeCfg struct {
 	OddKeyP float64
 }
 
-var OddKeys = []string{"", "a.b", "has space", "é", "0", "true", "null", "a:b", "- x", "k#", "$$", "日本", "a.b.c.d", "x\ty",
+var OddKeys = []string{"", "a.b", "has space", "é", "0", "true", "null", "a:b", "- x", "k#", "$$", "日本", "a.b.c.d", "x\ty", "tmp\\", "C:\\", "a\\b", "q\"uote", "per%cent", "{curly}",
 	"long-" + string(make([]byte, 0)) + "kkkkkkkkkkkkkkkkkkkkkkkkkkkkkkkkkkkkkkkkkkkkkkkkkkkkkkkkkkkkkkkkkkkkkkkkkkkkkkkkkkkkkkkkkkkkkkkkkkkkkkkkkkkkkkkkkkkkkkkkkkkkkkkkkkkkkkkkkkkkkkkkkkkkkkkkkkkkkkkkkkkkkkkkkkkkkkkkkkkkkkkkkkkkkkkkkkkkkkkkkkkkkkkkkkkkkkkkkkkkkkkkkkkkkkkkkkkkkkkkkkkkkkkkkkkkkkkkkkkkkkkk"}
 
 // KeyFamilies are sets of distinct keys that a looser comparison than string
@@ -185,6 +185,7 @@ var KeyFamilies = [][]string{
 	{"b", "b ", " b"},
 	{"1.0", "1", "1e0"},
 	{"x-1", "x_1", "x1"},
+	{"dir\\", "dir/", "dir"},
 	// long names that differ in their tails only (what real configuration
 	// keys look like), of almost the same length
 	{"deploymentStrategyDefaults", "deploymentStrategyOverride", "deploymentStrategySettings", "deploymentStrategyFallback"},
